@@ -4,7 +4,7 @@
    samples whose one-way differences are below 2^62 ns in magnitude.  From the
    Flocq semantics of the binary64 operations (round to nearest even with
    gradual underflow: |rnd x - x| <= 2^-53 |x| + 2^-1075). *)
-From ST Require Import Base.Ints Base.Value Base.F64 Model.NtpTime Model.Ftm Model.Lucky Model.Ntimed Proofs.NtimedProofs.
+From ST Require Import Base.Ints Base.Value Base.F64 Model.NtpTime Model.Ftm Model.Lucky Model.Ntimed Proofs.NtpTimeProofs Proofs.NtimedProofs.
 From Coq Require Import ZArith Reals Lia Lra List Bool.
 From Flocq Require Import Core FIX Ulp Round_NE Relative BinarySingleNaN.
 Import ListNotations.
@@ -82,6 +82,12 @@ Proof.
   lra.
 Qed.
 
+(* one rounding after an approximation: x approximates y within d *)
+Lemma rnd_step x y d : Rabs (x - y) <= d -> Rabs (rnd x - y) <= d + u * (Rabs y + d) + eta.
+Proof.
+  intros D. pose proof (rnd_err x) as E. unfold u, eta in *. revert D E. split_Rabs; lra.
+Qed.
+
 (* ---- the operations on finite values ---- *)
 
 Lemma fmul_spec x y e : fin x = true -> fin y = true -> (-1000 <= e <= 1000)%Z ->
@@ -155,3 +161,259 @@ Proof.
     assert (IZR (Zceil x) <= 0) by (apply IZR_le, Zceil_glb; lra).
     split; [apply Rabs_def1; lra|]. rewrite !Rabs_left1 by lra. lra.
 Qed.
+
+(* ---- time.Duration.Seconds: d / 1e9 up to 2^-53 relative and 2^-52 absolute ---- *)
+
+Lemma quot_rem_e9 d : (Z.abs d < 2^62)%Z ->
+  (Z.abs (Z.quot d 1000000000) <= 4611686018 /\ Z.abs (Z.rem d 1000000000) < 1000000000 /\
+   d = 1000000000 * Z.quot d 1000000000 + Z.rem d 1000000000)%Z.
+Proof.
+  intros H. change (2^62)%Z with 4611686018427387904%Z in H.
+  pose proof (Z.quot_rem' d 1000000000) as E. pose proof (Z.rem_bound_abs d 1000000000) as Hr.
+  split; [|split; [lia|exact E]].
+  destruct (Z_le_gt_dec 0 d).
+  - pose proof (Z.quot_pos d 1000000000). pose proof (Z.rem_nonneg d 1000000000). lia.
+  - pose proof (Z.quot_opp_l d 1000000000). pose proof (Z.rem_opp_l d 1000000000).
+    pose proof (Z.quot_pos (-d) 1000000000). pose proof (Z.rem_nonneg (-d) 1000000000).
+    pose proof (Z.quot_rem' (-d) 1000000000). lia.
+Qed.
+
+Lemma dur_seconds_close d : (Z.abs d < 2^62)%Z ->
+  fin (dur_seconds d) = true /\
+  Rabs (R (dur_seconds d) - IZR d / 1000000000) <= u * Rabs (IZR d / 1000000000) + 2 * u.
+Proof.
+  intros Hd. destruct (quot_rem_e9 d Hd) as [Hq [Hr E]].
+  set (q := Z.quot d 1000000000) in *. set (r := Z.rem d 1000000000) in *.
+  destruct (f_of_int_spec q) as [Fq Rq]; [change (2^53)%Z with 9007199254740992%Z; lia|].
+  destruct (f_of_int_spec r) as [Fr Rr]; [change (2^53)%Z with 9007199254740992%Z; lia|].
+  destruct (f_of_int_spec 1000000000) as [F9 R9]; [change (2^53)%Z with 9007199254740992%Z; lia|].
+  assert (Bq : Rabs (IZR q) <= 4611686018) by (rewrite <- abs_IZR; apply IZR_le; exact Hq).
+  assert (Br : Rabs (IZR r) <= 1000000000) by (rewrite <- abs_IZR; apply IZR_le; lia).
+  assert (Ed : IZR d = 1000000000 * IZR q + IZR r) by (rewrite E, plus_IZR, mult_IZR; reflexivity).
+  set (rho := IZR r / 1000000000).
+  assert (Brho : Rabs rho <= 1).
+  { unfold rho. apply Rabs_le. apply Rabs_le_inv in Br. split; lra. }
+  destruct (fdiv_spec (f_of_int r) (f_of_int 1000000000) 0) as [Fa Ra].
+  { exact Fr. } { rewrite R9. lra. } { lia. }
+  { rewrite Rr, R9. exact Brho. }
+  rewrite Rr, R9 in Ra. fold rho in Ra.
+  pose proof (rnd_err rho) as Ea. set (a := rnd rho) in *.
+  assert (Ba : Rabs a <= 2).
+  { unfold u, eta in Ea. revert Ea Brho. split_Rabs; lra. }
+  destruct (fadd_spec (f_of_int q) (fdiv (f_of_int r) (f_of_int 1000000000)) 34) as [Fs Rs].
+  { exact Fq. } { exact Fa. } { lia. }
+  { rewrite Rq, Ra. change (bpow radix2 34) with 17179869184. revert Bq Ba. split_Rabs; lra. }
+  rewrite Rq, Ra in Rs. unfold dur_seconds. fold q r. split; [exact Fs|]. rewrite Rs.
+  replace (IZR d / 1000000000) with (IZR q + rho) by (unfold rho; rewrite Ed; field).
+  assert (D0 : Rabs (IZR q + a - (IZR q + rho)) <= u + eta).
+  { replace (IZR q + a - (IZR q + rho)) with (a - rho) by ring. unfold u, eta in *. lra. }
+  pose proof (rnd_step _ _ _ D0) as D1. pose proof (Rabs_pos (IZR q + rho)). unfold u, eta in *. lra.
+Qed.
+
+(* ---- (lo.Seconds() + hi.Seconds()) / 2 * 1e9 against the exact (lo + hi) / 2 ---- *)
+
+Definition mid_ns_f (lo hi : Z) : f64 :=
+  fmul (fdiv (fadd (dur_seconds lo) (dur_seconds hi)) c2) (f_of_int 1000000000).
+
+Lemma mid_ns_close lo hi : (Z.abs lo < 2^62)%Z -> (Z.abs hi < 2^62)%Z ->
+  fin (mid_ns_f lo hi) = true /\
+  Rabs (R (mid_ns_f lo hi) - IZR (lo + hi) / 2) <= 3 * u * IZR (Z.abs lo + Z.abs hi) + / 1000000.
+Proof.
+  intros Hlo Hhi.
+  destruct (dur_seconds_close lo Hlo) as [Fl El]. destruct (dur_seconds_close hi Hhi) as [Fh Eh].
+  assert (Bl : Rabs (IZR lo) <= 4611686018427387904) by (rewrite <- abs_IZR; apply IZR_le; lia).
+  assert (Bh : Rabs (IZR hi) <= 4611686018427387904) by (rewrite <- abs_IZR; apply IZR_le; lia).
+  rewrite !plus_IZR, !abs_IZR.
+  set (L := IZR lo / 1000000000) in *. set (H := IZR hi / 1000000000) in *.
+  assert (EL : IZR lo = L * 1000000000) by (unfold L; field).
+  assert (EH : IZR hi = H * 1000000000) by (unfold H; field).
+  clearbody L H. rewrite EL, EH in *. clear EL EH.
+  set (lf := R (dur_seconds lo)) in *. set (hf := R (dur_seconds hi)) in *.
+  destruct (f_of_int_spec 2) as [F2 R2]; [change (2^53)%Z with 9007199254740992%Z; lia|].
+  destruct (f_of_int_spec 1000000000) as [F9 R9]; [change (2^53)%Z with 9007199254740992%Z; lia|].
+  (* magnitudes *)
+  assert (BL : Rabs L <= 4611686019) by (revert Bl; clear; split_Rabs; lra).
+  assert (BH : Rabs H <= 4611686019) by (revert Bh; clear; split_Rabs; lra).
+  assert (Blf : Rabs lf <= 4611686020) by (unfold u in El; revert El BL; clear; split_Rabs; lra).
+  assert (Bhf : Rabs hf <= 4611686020) by (unfold u in Eh; revert Eh BH; clear; split_Rabs; lra).
+  (* the sum *)
+  destruct (fadd_spec (dur_seconds lo) (dur_seconds hi) 34) as [Fs Rs].
+  { exact Fl. } { exact Fh. } { lia. }
+  { fold lf hf. change (bpow radix2 34) with 17179869184. revert Blf Bhf. clear. split_Rabs; lra. }
+  fold lf hf in Rs. pose proof (rnd_err (lf + hf)) as Es. rewrite <- Rs in Es.
+  set (sf := R (fadd (dur_seconds lo) (dur_seconds hi))) in *.
+  assert (Bsf : Rabs sf <= 9223372050) by (unfold u, eta in Es; revert Es Blf Bhf; clear; split_Rabs; lra).
+  (* the half *)
+  destruct (fdiv_spec (fadd (dur_seconds lo) (dur_seconds hi)) c2 34) as [Fm Rm].
+  { exact Fs. } { unfold c2. rewrite R2. lra. } { lia. }
+  { unfold c2. rewrite R2. fold sf. change (bpow radix2 34) with 17179869184. revert Bsf. clear. split_Rabs; lra. }
+  unfold c2 in Rm. rewrite R2 in Rm. fold c2 in Rm. fold sf in Rm.
+  pose proof (rnd_err (sf / 2)) as Em. rewrite <- Rm in Em.
+  set (mf := R (fdiv (fadd (dur_seconds lo) (dur_seconds hi)) c2)) in *.
+  assert (Bmf : Rabs mf <= 4611686030) by (unfold u, eta in Em; revert Em Bsf; clear; split_Rabs; lra).
+  (* back to nanoseconds *)
+  destruct (fmul_spec (fdiv (fadd (dur_seconds lo) (dur_seconds hi)) c2) (f_of_int 1000000000) 63) as [Fp Rp].
+  { exact Fm. } { exact F9. } { lia. }
+  { fold mf. rewrite R9. change (bpow radix2 63) with 9223372036854775808. revert Bmf. clear. split_Rabs; lra. }
+  fold mf in Rp. rewrite R9 in Rp. pose proof (rnd_err (mf * 1000000000)) as Ep. rewrite <- Rp in Ep.
+  unfold mid_ns_f. split; [exact Fp|].
+  set (pf := R (fmul (fdiv (fadd (dur_seconds lo) (dur_seconds hi)) c2) (f_of_int 1000000000))) in *.
+  (* the rounding steps as linear constraints over |L| and |H| *)
+  pose proof (Rabs_pos L) as PL. pose proof (Rabs_pos H) as PH. pose proof (Rabs_triang L H) as TLH.
+  set (aL := Rabs L) in *. set (aH := Rabs H) in *.
+  assert (Ds : Rabs (sf - (L + H)) <= 21 / 10 * u * (aL + aH) + 5 * u).
+  { rewrite Rs.
+    assert (D0 : Rabs (lf + hf - (L + H)) <= u * (aL + aH) + 4 * u).
+    { replace (lf + hf - (L + H)) with ((lf - L) + (hf - H)) by ring. eapply Rle_trans; [apply Rabs_triang|]. lra. }
+    pose proof (rnd_step _ _ _ D0) as D1. unfold u, eta in *. lra. }
+  assert (Dm : Rabs (mf - (L + H) / 2) <= 16 / 10 * u * (aL + aH) + 3 * u).
+  { rewrite Rm.
+    assert (D0 : Rabs (sf / 2 - (L + H) / 2) <= (21 / 10 * u * (aL + aH) + 5 * u) / 2).
+    { replace (sf / 2 - (L + H) / 2) with ((sf - (L + H)) * / 2) by field.
+      rewrite Rabs_mult, (Rabs_pos_eq (/ 2)) by lra. lra. }
+    pose proof (rnd_step _ _ _ D0) as D1.
+    assert (T : Rabs ((L + H) / 2) <= (aL + aH) / 2).
+    { unfold Rdiv. rewrite Rabs_mult, (Rabs_pos_eq (/ 2)) by lra. lra. }
+    unfold u, eta in *. lra. }
+  rewrite Rp.
+  assert (D0 : Rabs (mf * 1000000000 - (L * 1000000000 + H * 1000000000) / 2)
+               <= (16 / 10 * u * (aL + aH) + 3 * u) * 1000000000).
+  { replace (mf * 1000000000 - (L * 1000000000 + H * 1000000000) / 2) with ((mf - (L + H) / 2) * 1000000000) by field.
+    rewrite Rabs_mult, (Rabs_pos_eq 1000000000) by lra. lra. }
+  pose proof (rnd_step _ _ _ D0) as D1.
+  assert (T : Rabs ((L * 1000000000 + H * 1000000000) / 2) <= (aL + aH) * 1000000000 / 2).
+  { replace ((L * 1000000000 + H * 1000000000) / 2) with ((L + H) * (1000000000 / 2)) by field.
+    rewrite Rabs_mult, (Rabs_pos_eq (1000000000 / 2)) by lra. lra. }
+  rewrite !Rabs_mult, (Rabs_pos_eq 1000000000) by lra. fold aL aH.
+  unfold u, eta in *. lra.
+Qed.
+
+(* ---- the integer side: ntp.ClockOffset without saturation or wrap ---- *)
+
+Lemma sat64_small x : (Z.abs (sat64 x) < 2^62)%Z -> sat64 x = x.
+Proof.
+  change (2^62)%Z with 4611686018427387904%Z. unfold sat64, min_i64, max_i64.
+  destruct (Z.ltb_spec x (-9223372036854775808)); [lia|].
+  destruct (Z.ltb_spec 9223372036854775807 x); lia.
+Qed.
+
+(* below 2^62 the exact offset is -(lo + hi) / 2 truncated towards zero: within 1/2 of -(lo + hi) / 2 *)
+Lemma raw_offset_exact s : (Z.abs (lo_ns s) < 2^62)%Z -> (Z.abs (hi_ns s) < 2^62)%Z ->
+  raw_offset s = Z.quot (- (lo_ns s + hi_ns s)) 2.
+Proof.
+  intros Hl Hh. unfold raw_offset, clock_offset, lo_ns, hi_ns, time_sub in *.
+  pose proof (sat64_small _ Hl) as El. pose proof (sat64_small _ Hh) as Eh. rewrite El, Eh in *.
+  change (2^62)%Z with 4611686018427387904%Z in *.
+  assert (E1 : sat64 (sm_srx s - sm_ctx s) = (- (sm_ctx s - sm_srx s))%Z).
+  { unfold sat64, min_i64, max_i64.
+    destruct (Z.ltb_spec (sm_srx s - sm_ctx s) (-9223372036854775808)); [lia|].
+    destruct (Z.ltb_spec 9223372036854775807 (sm_srx s - sm_ctx s)); lia. }
+  assert (E2 : sat64 (sm_stx s - sm_crx s) = (- (sm_crx s - sm_stx s))%Z).
+  { unfold sat64, min_i64, max_i64.
+    destruct (Z.ltb_spec (sm_stx s - sm_crx s) (-9223372036854775808)); [lia|].
+    destruct (Z.ltb_spec 9223372036854775807 (sm_stx s - sm_crx s)); lia. }
+  rewrite E1, E2. set (a := (sm_ctx s - sm_srx s)%Z) in *. set (b := (sm_crx s - sm_stx s)%Z) in *.
+  replace (- a + - b)%Z with (- (a + b))%Z by ring.
+  rewrite i64_id by (unfold min_i64, max_i64; lia).
+  unfold go_div. apply i64_id. unfold min_i64, max_i64.
+  pose proof (Z.quot_rem' (- (a + b)) 2). pose proof (Z.rem_bound_abs (- (a + b)) 2). lia.
+Qed.
+
+Lemma quot2_half n : Rabs (IZR (Z.quot n 2) - IZR n / 2) <= / 2.
+Proof.
+  pose proof (Z.quot_rem' n 2) as E. pose proof (Z.rem_bound_abs n 2) as Hr.
+  assert (Er : IZR n = 2 * IZR (Z.quot n 2) + IZR (Z.rem n 2)) by (rewrite E at 1; rewrite plus_IZR, mult_IZR; reflexivity).
+  assert (Br : Rabs (IZR (Z.rem n 2)) <= 1) by (rewrite <- abs_IZR; apply IZR_le; lia).
+  rewrite Er. revert Br. clear. split_Rabs; lra.
+Qed.
+
+(* ---- the closeness clause ---- *)
+
+Lemma raw_f_unfold s : raw_f s = inv (f_to_i64 (mid_ns_f (lo_ns s) (hi_ns s))).
+Proof. reflexivity. Qed.
+
+(* the difference in ns, as a real bound: one for the truncation, a half for the exact offset's own
+   truncation, 10^-6 for the conversions to seconds, 3 * 2^-53 relative for the four roundings *)
+Lemma raw_f_close_R s : (Z.abs (lo_ns s) < 2^62)%Z -> (Z.abs (hi_ns s) < 2^62)%Z ->
+  Rabs (IZR (raw_f s - raw_offset s)) < 3 / 2 + / 1000000 + 3 * u * IZR (Z.abs (lo_ns s) + Z.abs (hi_ns s)).
+Proof.
+  intros Hl Hh. rewrite raw_f_unfold, (raw_offset_exact s Hl Hh).
+  set (lo := lo_ns s) in *. set (hi := hi_ns s) in *.
+  destruct (mid_ns_close lo hi Hl Hh) as [Fp Ep]. set (p := mid_ns_f lo hi) in *.
+  change (2^62)%Z with 4611686018427387904%Z in *.
+  set (S := (Z.abs lo + Z.abs hi)%Z) in *.
+  assert (BS2 : IZR S <= 9223372036854775808) by (apply IZR_le; lia).
+  assert (Bt : Rabs (IZR (lo + hi) / 2) <= 4611686018427387904).
+  { assert (Rabs (IZR (lo + hi)) <= 9223372036854775808) by (rewrite <- abs_IZR; apply IZR_le; lia).
+    revert H. clear. split_Rabs; lra. }
+  destruct (Ztrunc_err (R p)) as [K1 K2]. set (k := Ztrunc (R p)) in *.
+  assert (Bk : Rabs (IZR k) < 9223372036854775807).
+  { unfold u in Ep. revert K2 Ep Bt BS2. clear. split_Rabs; lra. }
+  assert (Hk : (min_i64 < k <= max_i64)%Z).
+  { unfold min_i64, max_i64. apply Rabs_lt_inv in Bk. destruct Bk as [Bk1 Bk2].
+    split; [apply lt_IZR; lra|apply le_IZR; lra]. }
+  rewrite (f_to_i64_spec p Fp) by (fold k; lia). fold k.
+  unfold inv. destruct (Z.eqb_spec k min_i64) as [Ek|_]; [lia|].
+  pose proof (quot2_half (- (lo + hi))) as Q. set (m := Z.quot (- (lo + hi)) 2) in *.
+  rewrite opp_IZR in Q.
+  rewrite minus_IZR, opp_IZR. unfold u in *. revert K1 Ep Q. clear. split_Rabs; lra.
+Qed.
+
+(* ... hence the tolerance of the property oracle: 2 ns + 2^-50 of the magnitudes *)
+Theorem raw_f_close_Z s : (Z.abs (lo_ns s) < 2^62)%Z -> (Z.abs (hi_ns s) < 2^62)%Z ->
+  (Z.abs (raw_f s - raw_offset s) <= raw_tol s)%Z.
+Proof.
+  intros Hl Hh. pose proof (raw_f_close_R s Hl Hh) as D. unfold raw_tol.
+  change (2^50)%Z with 1125899906842624%Z.
+  set (S := (Z.abs (lo_ns s) + Z.abs (hi_ns s))%Z) in *. set (T := (S / 1125899906842624)%Z).
+  assert (HT : (0 <= T /\ S < 1125899906842624 * (T + 1))%Z).
+  { subst T. split; [apply Z.div_pos; lia|]. pose proof (Z.mul_succ_div_gt S 1125899906842624). lia. }
+  assert (BS : IZR S < 1125899906842624 * (IZR T + 1)).
+  { replace (1125899906842624 * (IZR T + 1)) with (IZR (1125899906842624 * (T + 1))) by (rewrite mult_IZR, plus_IZR; reflexivity).
+    apply IZR_lt. apply HT. }
+  assert (BT : 0 <= IZR T) by (apply IZR_le; apply HT).
+  assert (D' : Rabs (IZR (raw_f s - raw_offset s)) < IZR (3 + T)) by (rewrite plus_IZR; unfold u in D; lra).
+  rewrite <- abs_IZR in D'. apply lt_IZR in D'. lia.
+Qed.
+
+(* ... and one nanosecond while the two one-way differences add up to less than 2^50 ns (13 days) *)
+Theorem raw_f_close_1ns s : (Z.abs (lo_ns s) + Z.abs (hi_ns s) < 2^50)%Z ->
+  (Z.abs (raw_f s - raw_offset s) <= 1)%Z.
+Proof.
+  intros HS. change (2^50)%Z with 1125899906842624%Z in HS.
+  assert (Hl : (Z.abs (lo_ns s) < 2^62)%Z) by (change (2^62)%Z with 4611686018427387904%Z; lia).
+  assert (Hh : (Z.abs (hi_ns s) < 2^62)%Z) by (change (2^62)%Z with 4611686018427387904%Z; lia).
+  pose proof (raw_f_close_R s Hl Hh) as D.
+  assert (BS : IZR (Z.abs (lo_ns s) + Z.abs (hi_ns s)) < 1125899906842624) by (apply IZR_lt; exact HS).
+  assert (D' : Rabs (IZR (raw_f s - raw_offset s)) < IZR 2) by (unfold u in D; lra).
+  rewrite <- abs_IZR in D'. apply lt_IZR in D'. lia.
+Qed.
+
+(* correct sign: an exact offset beyond the tolerance is never turned around *)
+Theorem raw_f_sign s : (Z.abs (lo_ns s) < 2^62)%Z -> (Z.abs (hi_ns s) < 2^62)%Z ->
+  ((raw_tol s < raw_offset s -> 0 < raw_f s) /\ (raw_offset s < - raw_tol s -> raw_f s < 0))%Z.
+Proof. intros Hl Hh. pose proof (raw_f_close_Z s Hl Hh). lia. Qed.
+
+(* the closeness clause of the property oracle holds for the model on every sample *)
+Theorem raw_f_close s : raw_close s (raw_f s) = true.
+Proof.
+  unfold raw_close.
+  destruct (Z.ltb_spec (Z.abs (lo_ns s)) (2^62)) as [Hl|_]; [|reflexivity].
+  destruct (Z.ltb_spec (Z.abs (hi_ns s)) (2^62)) as [Hh|_]; [|reflexivity].
+  cbn [andb]. pose proof (raw_f_close_Z s Hl Hh) as C.
+  destruct (Z.leb_spec (Z.abs (raw_f s - raw_offset s)) (raw_tol s)) as [_|C']; [|lia].
+  cbn [andb].
+  destruct (Z.ltb_spec (raw_tol s) (raw_offset s)) as [P|_].
+  - destruct (Z.ltb_spec 0 (raw_f s)) as [_|P']; [|lia]. cbn [andb].
+    destruct (Z.ltb_spec (raw_offset s) (- raw_tol s)) as [N|_]; [|reflexivity].
+    destruct (Z.ltb_spec (raw_f s) 0); [reflexivity|lia].
+  - cbn [andb]. destruct (Z.ltb_spec (raw_offset s) (- raw_tol s)) as [N|_]; [|reflexivity].
+    destruct (Z.ltb_spec (raw_f s) 0); [reflexivity|lia].
+Qed.
+
+(* ---- the oracle on the model, all histories, no hypothesis ---- *)
+
+Theorem ntimed_model_meets_oracle_all ops :
+  let tr := nt_trace (nt_zero 0) ops in
+  C17_ntimed_ok ops (within_of tr) (map ni_out tr) (reset_points 0 0 ops) (nt_run_restarting (nt_zero 0) ops) = true.
+Proof. apply ntimed_model_meets_oracle. intros s _. apply raw_f_close. Qed.
